@@ -342,6 +342,223 @@ def inline_module_constants(fn, consts):
     return work
 
 
+def simple_members(class_node, is_known):
+    """{name: ('property' | 'method', params, expr)} for members of a class that did not exist when the rules were written
+    and merely name an expression: a property / method whose body is `return <side-effect-free expression>`."""
+    out = {}
+    if class_node is None:
+        return out
+    for m in class_node.body:
+        if not isinstance(m, ast.FunctionDef) or is_known(m.name) or m.name.startswith('__'):
+            continue
+        body = [st for st in m.body if not (isinstance(st, ast.Expr) and isinstance(st.value, ast.Constant))]
+        if len(body) != 1 or not isinstance(body[0], ast.Return) or body[0].value is None:
+            continue
+        expr = body[0].value
+        if not is_pure(expr):
+            continue
+        decos = [src(d) for d in m.decorator_list]
+        params = [a.arg for a in m.args.args]
+        if m.args.vararg or m.args.kwarg or m.args.kwonlyargs or m.args.defaults:
+            continue
+        if any(d in ('property', 'functools.cached_property', 'cached_property') for d in decos) and params == ['self']:
+            out[m.name] = ('property', [], expr)
+        elif not decos and params[:1] == ['self']:
+            out[m.name] = ('method', params[1:], expr)
+        elif decos == ['staticmethod']:
+            out[m.name] = ('method', params, expr)
+    return out
+
+
+def inline_simple_members(fn, members):
+    """`self.<new property>` and `self.<new pure one-line method>(args)` are replaced by the expression they name."""
+    if not members or not isinstance(fn, (ast.FunctionDef, ast.AsyncFunctionDef)) or fn.name in members:
+        return fn
+    hit = any(isinstance(n, ast.Attribute) and n.attr in members and isinstance(n.value, ast.Name) and n.value.id == 'self'
+              for n in _own_nodes(fn))
+    if not hit:
+        return fn
+    work = _relink(_strip(fn), getattr(fn, '_parent', None))
+
+    class _T(ast.NodeTransformer):
+        def visit_Call(self, node):
+            self.generic_visit(node)
+            f = node.func
+            if isinstance(f, ast.Attribute) and isinstance(f.value, ast.Name) and f.value.id == 'self' and f.attr in members:
+                kind, params, expr = members[f.attr]
+                if kind == 'method' and not node.keywords and len(node.args) == len(params) and all(is_pure(a) for a in node.args):
+                    mapping = dict(zip(params, node.args))
+
+                    class _S(ast.NodeTransformer):
+                        def visit_Name(self, n):
+                            if isinstance(n.ctx, ast.Load) and n.id in mapping:
+                                return ast.copy_location(_strip(mapping[n.id]), n)
+                            return n
+                    new = _S().visit(_strip(expr))
+                    for x in ast.walk(new):
+                        x._from_temp = True
+                    return ast.copy_location(new, node)
+            return node
+
+        def visit_Attribute(self, node):
+            self.generic_visit(node)
+            if isinstance(node.ctx, ast.Load) and isinstance(node.value, ast.Name) and node.value.id == 'self' and node.attr in members \
+                    and members[node.attr][0] == 'property':
+                new = _strip(members[node.attr][2])
+                for x in ast.walk(new):
+                    x._from_temp = True
+                return ast.copy_location(new, node)
+            return node
+
+        def visit_FunctionDef(self, node):
+            if node is work:
+                self.generic_visit(node)
+            return node
+        visit_AsyncFunctionDef = visit_FunctionDef
+
+        def visit_Lambda(self, node):
+            return node
+    for _ in range(3):
+        _T().visit(work)
+        _relink(work, getattr(fn, '_parent', None))
+    work._normalised = True
+    return work
+
+
+def context_managers(class_node, is_known):
+    """{name: (params, pre statements, yielded value or None, post statements)} for @contextmanager methods of a class that
+    did not exist when the rules were written and have the plain shape  pre...; yield [v]; post...  (the yield possibly
+    inside `try: yield finally: post`)."""
+    out = {}
+    if class_node is None:
+        return out
+    for m in class_node.body:
+        if not isinstance(m, ast.FunctionDef) or is_known(m.name):
+            continue
+        if not any('contextmanager' in src(d) for d in m.decorator_list):
+            continue
+        if m.args.vararg or m.args.kwarg or m.args.kwonlyargs or m.args.defaults:
+            continue
+        body = [st for st in m.body if not (isinstance(st, ast.Expr) and isinstance(st.value, ast.Constant))]
+        pre, post, yielded, seen = [], [], None, False
+        ok = True
+        for st in body:
+            is_yield = isinstance(st, ast.Expr) and isinstance(st.value, ast.Yield)
+            is_try = isinstance(st, ast.Try) and len(st.body) == 1 and isinstance(st.body[0], ast.Expr) and \
+                isinstance(st.body[0].value, ast.Yield) and not st.handlers and not st.orelse
+            if (is_yield or is_try) and not seen:
+                seen = True
+                y = st.value if is_yield else st.body[0].value
+                yielded = y.value
+                if is_try:
+                    post += st.finalbody
+            elif any(isinstance(x, (ast.Yield, ast.YieldFrom)) for x in ast.walk(st)):
+                ok = False
+            elif seen:
+                post.append(st)
+            else:
+                pre.append(st)
+        if ok and seen:
+            out[m.name] = ([a.arg for a in m.args.args if a.arg != 'self'], pre, yielded, post)
+    return out
+
+
+def inline_context_managers(fn, cms):
+    """`with self.<new context manager>(args) [as x]: BODY` becomes  pre; [x = value]; BODY; post."""
+    if not cms or not isinstance(fn, (ast.FunctionDef, ast.AsyncFunctionDef)) or fn.name in cms:
+        return fn
+
+    def target_of(item):
+        c = item.context_expr
+        if isinstance(c, ast.Call) and isinstance(c.func, ast.Attribute) and isinstance(c.func.value, ast.Name) and c.func.value.id == 'self' \
+                and c.func.attr in cms and not c.keywords and len(c.args) == len(cms[c.func.attr][0]) and all(is_pure(a) for a in c.args):
+            return c
+        return None
+    if not any(isinstance(n, ast.With) and len(n.items) == 1 and target_of(n.items[0]) for n in _own_nodes(fn)):
+        return fn
+    work = _relink(_strip(fn), getattr(fn, '_parent', None))
+    for _ in range(6):
+        w = next((n for n in _own_nodes(work) if isinstance(n, ast.With) and len(n.items) == 1 and target_of(n.items[0])), None)
+        if w is None:
+            break
+        call = target_of(w.items[0])
+        params, pre, yielded, post = cms[call.func.attr]
+        mapping = dict(zip(params, call.args))
+
+        class _S(ast.NodeTransformer):
+            def visit_Name(self, n):
+                if isinstance(n.ctx, ast.Load) and n.id in mapping:
+                    return ast.copy_location(_strip(mapping[n.id]), n)
+                return n
+        new = [_S().visit(_strip(st)) for st in pre]
+        if w.items[0].optional_vars is not None:
+            val = _S().visit(_strip(yielded)) if yielded is not None else ast.Constant(value=None)
+            new.append(ast.Assign(targets=[_strip(w.items[0].optional_vars)], value=val, type_comment=None))
+        new += w.body
+        new += [_S().visit(_strip(st)) for st in post]
+        for st in new:
+            ast.copy_location(st, w) if not hasattr(st, 'lineno') else None
+        parent = w._parent
+        for field in ('body', 'orelse', 'finalbody'):
+            lst = getattr(parent, field, None)
+            if isinstance(lst, list) and w in lst:
+                i = lst.index(w)
+                lst[i:i + 1] = new
+        _relink(work, getattr(fn, '_parent', None))
+    work._normalised = True
+    return work
+
+
+def uncollect_generators(fn, gen_methods=()):
+    """`X = list(self.gen(..))` immediately followed by `if C: yield from X` (X used nowhere else) runs the generator for
+    its book-keeping and emits what it produced only under C - the same as `if C: yield from self.gen(..)  else:
+    list(self.gen(..))`.  Rewritten to that form (C must be side-effect free)."""
+    if not isinstance(fn, (ast.FunctionDef, ast.AsyncFunctionDef)):
+        return fn
+
+    def find(root):
+        for n in _own_nodes(root):
+            for field in ('body', 'orelse', 'finalbody'):
+                lst = getattr(n, field, None)
+                if not isinstance(lst, list):
+                    continue
+                for i, st in enumerate(lst[:-1]):
+                    if not (isinstance(st, ast.Assign) and len(st.targets) == 1 and isinstance(st.targets[0], ast.Name)):
+                        continue
+                    v = st.value
+                    if not (isinstance(v, ast.Call) and isinstance(v.func, ast.Name) and v.func.id in ('list', 'tuple') and len(v.args) == 1
+                            and isinstance(v.args[0], ast.Call) and isinstance(v.args[0].func, ast.Attribute)
+                            and src(v.args[0].func.value) == 'self' and v.args[0].func.attr in gen_methods):
+                        continue
+                    name = st.targets[0].id
+                    nxt = lst[i + 1]
+                    if not (isinstance(nxt, ast.If) and not nxt.orelse and len(nxt.body) == 1 and isinstance(nxt.body[0], ast.Expr)
+                            and isinstance(nxt.body[0].value, ast.YieldFrom) and isinstance(nxt.body[0].value.value, ast.Name)
+                            and nxt.body[0].value.value.id == name and is_pure(nxt.test)):
+                        continue
+                    uses = [x for x in _own_nodes(root) if isinstance(x, ast.Name) and x.id == name]
+                    if len(uses) != 2:
+                        continue
+                    return lst, i, st, nxt, v.args[0]
+        return None
+    if find(fn) is None:
+        return fn
+    work = _relink(_strip(fn), getattr(fn, '_parent', None))
+    for _ in range(4):
+        hit = find(work)
+        if hit is None:
+            break
+        lst, i, st, nxt, call = hit
+        new = ast.If(test=nxt.test,
+                     body=[ast.Expr(value=ast.YieldFrom(value=_strip(call)))],
+                     orelse=[ast.Expr(value=ast.Call(func=ast.Name(id='list', ctx=ast.Load()), args=[_strip(call)], keywords=[]))])
+        ast.copy_location(new, st)
+        lst[i:i + 2] = [new]
+        _relink(work, getattr(fn, '_parent', None))
+    work._normalised = True
+    return work
+
+
 def unroll_literal_loops(fn):
     """`for a, b in ((x1, y1), (x2, y2)): BODY` over a short literal sequence of side-effect-free items is the sequence
     BODY[x1, y1]; BODY[x2, y2] - the same statements a hand-written chain has.  Only loops without break / continue /
